@@ -9,6 +9,7 @@
   (Spec.lean).
 -/
 import ApiFu.C10.Lemmas
+import ApiFu.C10.LiteralLemmas
 
 namespace ApiFu.C10
 
@@ -249,5 +250,59 @@ theorem clone_disjoint {b : Nat} {d : GDef} (hb : ∀ i ∈ d.ids, i < b) (hc : 
   have h1 := ids_cloneDef hc n hn
   have h2 := hb n hmem
   omega
+
+/-! ## Default values
+
+  The parse/coerce side is the specification in Literal.lean (a literal parser and `CoerceLiteral`
+  written from the June-2018 grammar and coercion rules for this purpose); the harness discharges
+  the same round trip against the real `parser.ParseValue` + `schema.CoerceLiteral` on every printed
+  default. Covered value classes (`covered`, `nf`): null, Int (32-bit), ID (int or string), String
+  (every code point up to U+FFFF), Boolean, enum values, lists and input objects of these, in
+  coercion normal form. Not covered: Float (its text is a parameter of the model), custom scalars
+  (application callbacks), strings with code points above U+FFFF (finding F-10b, witness below). -/
+
+/-- **string_roundtrip** — the text `marshalValue` prints for a string (Go's JSON escaping: `\"`,
+    `\\`, `\n`, `\r`, `\t`, `\b`, `\f`, `\u00XX` for other control characters, `\u003c` `\u003e`
+    `\u0026` `\u2028` `\u2029`, everything else raw) lexes, as a GraphQL quoted string followed by
+    anything, back to exactly the string — for every string whose code points are at most U+FFFF. -/
+theorem string_roundtrip (s : String) (h : ∀ c ∈ s.toList, c.toNat ≤ 0xFFFF) (rest : List Char) :
+    lexString (jsonEscape s.toList ++ '"' :: rest) [] = some (s.toList, rest) := by
+  simpa using lexString_jsonEscape s.toList h rest []
+
+/-- **F-10b negation witness** — a default string containing U+1F600 is printed raw and that text
+    is not a literal (U+1F600 is not a June-2018 SourceCharacter), whatever the fuel. -/
+theorem astral_default_not_a_literal (fuel : Nat) :
+    parseLit fuel (jsonString (String.ofList [Char.ofNat 0x1F600])).toList = none := by
+  cases fuel <;> rfl
+
+/-- **default_parses** — for every value of the covered classes, the text `marshalValue` prints is
+    a literal: it parses (with any sufficient fuel, followed by any terminator) to the literal that
+    denotes the value, consuming exactly the printed text. -/
+theorem default_parses {ι : Type} (d : SchemaDef ι) (hn : NamesOk d) (t : TRef) (v : Value) (s : String)
+    (hc : covered v = true) (hm : marshalValue d t v = some s) (fuel : Nat) (hf : need v ≤ fuel)
+    (rest : List Char) (hr : Term rest) :
+    parseLit fuel (s.toList ++ rest) = some (litOf v, rest) :=
+  parse_marshal d hn v t s fuel rest hc hm hf hr
+
+/-- **default_roundtrip** — each printed default value is a valid GraphQL literal that coerces back
+    to the configured default: if `v` is a value of type `t` in coercion normal form (what
+    `CoerceLiteral` can produce; `nf`) of the covered classes and `marshalValue` prints `s` for it,
+    then `s` parses as one literal (nothing left over) and that literal coerces to `v` at type `t`. -/
+theorem default_roundtrip {ι : Type} (d : SchemaDef ι) (hn : NamesOk d) (t : TRef) (v : Value) (s : String)
+    (hc : covered v = true) (hnf : nf d t v = true) (hm : marshalValue d t v = some s)
+    (fuel : Nat) (hf : need v ≤ fuel) :
+    ∃ lit, parseLit fuel s.toList = some (lit, []) ∧ coerceLit d t lit = some v := by
+  refine ⟨litOf v, ?_, coerce_litOf d v t hnf⟩
+  have := parse_marshal d hn v t s fuel [] hc hm hf (by intro c hc; simp at hc)
+  simpa using this
+
+/-- Non-vacuity of `default_roundtrip`: `[null, "a\"b\n<"]` at type `[String]` over the witness
+    schema extended with `String`. -/
+example :
+    let d : SchemaDef Unit := { witnessOk.defn with types := mkType .scalar "String" [] [] [] :: witnessOk.defn.types }
+    let v : Value := .list [.null, .str "a\"b\n<"]
+    namesOk d = true ∧ covered v = true ∧ nf d (.list (.named "String")) v = true
+      ∧ marshalValue d (.list (.named "String")) v = some "[null, \"a\\\"b\\n\\u003c\"]" := by
+  decide
 
 end ApiFu.C10
